@@ -40,7 +40,7 @@ UNIT_TIMEOUT = {"quick": 200, "thorough": 600}
 # In both the patched name is not in the owner's own __dict__ before the patch and must not be afterwards.
 TARGETS = ["fn", "meth", "cmeth", "smeth", "const", "sub_meth", "sub_cmeth", "sub_smeth", "inst_meth"]
 ABSENT = object()
-REPLS = ["default", "function", "bound", "callable_obj", "explicit_mock", "new_callable", "noncallable", "classmethod_fn", "staticmethod_fn", "spec_set", "new_callable_fn", "new_callable_bound", "new_callable_obj", "frozen_type", "asynq_fn"]
+REPLS = ["default", "function", "bound", "callable_obj", "explicit_mock", "new_callable", "noncallable", "classmethod_fn", "staticmethod_fn", "spec_set", "new_callable_fn", "new_callable_bound", "new_callable_obj", "frozen_type", "asynq_fn", "pair_fn"]
 ACTS = ["with", "decorator", "classdeco", "startstop"]
 EXITS = ["normal", "exception", "stopall"]
 COMPS = ["single", "nested", "nested_same_replacement", "sequential", "same_patcher_again", "nested_stopall"]
@@ -187,6 +187,21 @@ def make_replacement(kind, rec):
             rec.calls.append((args, tuple(sorted(kwargs.items()))))
             yield ConstFuture(None)
             return result_for(len(args))
+
+        return {"new": new}, None
+    if kind == "pair_fn":
+        # a hand-made pair: an asynq function (generator body) declared with a synchronous twin - every convention
+        # answers through the twin, which is what records the call
+        from asynq import asynq as A, ConstFuture
+
+        def twin(*args, **kwargs):
+            rec.calls.append((args, tuple(sorted(kwargs.items()))))
+            return result_for(len(args))
+
+        @A(sync_fn=twin)
+        def new(*args, **kwargs):
+            yield ConstFuture(None)
+            return twin(*args, **kwargs)
 
         return {"new": new}, None
     if kind == "bound":
